@@ -214,6 +214,7 @@ def run(tier):
         cc = chk.clause('R2.c', 'documented precondition -> -(position)')
         ce = chk.clause('R2.e', 'error exit is inert')
         cg = chk.clause('R2.g', 'routine has a screening table')
+        cp = chk.clause('R2.p', 'first illegal argument wins: no code store is reachable while info already holds a code')
         seen = set()
         for f in prog.all_funcs():
             fam, prec = family_of(f.name)
@@ -236,7 +237,7 @@ def run(tier):
                 k = row['k'] * sign
                 der = nm.block_der(row)
                 disj, ctx = r2.row_disjuncts(t, row)
-                ctx_txt = [canon_atom(norm_atom(nm.text(c, der), p)) for (c, p) in ctx]
+                ctx_txt = [canon_atom(norm_atom(nm.text(c, der), p)) for (c, p) in ctx if p]
                 for d in disj:
                     atoms = [canon_atom(norm_atom(nm.text(a, der), p)) for (a, p) in d]
                     table.append((k, atoms, ctx_txt, row))
@@ -270,12 +271,26 @@ def run(tier):
                 reqset = set(req)
                 hit = None
                 wrongcode = None
+                narrowed = None
                 for (kk, atoms, ctx, row) in table:
                     if set(atoms) <= reqset | set(ctx_implied(reqset)):
                         if kk == k:
+                            # an enclosing positive guard that constrains a quantity of the precondition itself (and is not one of
+                            # its atoms) screens the precondition on part of its domain only
+                            nar = [c for c in ctx if c not in reqset and c not in INFO_CLEAR and not INFO_TEST.match(c)
+                                   and len(req) > 1 and terms(c) & set().union(*[terms(a) for a in req])]
+                            if nar:
+                                narrowed = (row, nar)
+                                continue
                             hit = row
                             break
                         wrongcode = (kk, row)
+                if hit is None and narrowed is not None:
+                    chk.violate('R2.c', '%s:narrowed:%d:%s' % (f.name, k, '&&'.join(req)), loc(f, narrowed[0]['node']), f.name,
+                                'documented precondition `%s` (-> info = -%d) is only screened under the enclosing guard %s, which restricts a '
+                                'quantity the precondition itself ranges over: outside that guard the illegal combination is accepted'
+                                % (' && '.join(req), k, ' && '.join(narrowed[1])), cfgname=cfgname)
+                    continue
                 inst = '%s:%d:%s' % (f.name, k, ' && '.join(req))
                 if hit is not None:
                     chk.ok('R2.c', inst, sample='-> info = -%d' % k)
@@ -287,6 +302,16 @@ def run(tier):
                     chk.violate('R2.c', '%s:unchecked:%d:%s' % (f.name, k, '&&'.join(req)), loc(f, t.errblock), f.name,
                                 'documented precondition is not screened: `%s` should yield info = -%d (argument %s)'
                                 % (' && '.join(req), k, f.params[k - 1][0]), cfgname=cfgname)
+            # (p) precedence
+            nst, over = r2.precedence(prog, f, t)
+            if nst == 0:
+                raise AnalysisBroken('C18: no code store found on the CFG of %s' % f.name)
+            if not over:
+                chk.ok('R2.p', f.name, sample='%d code stores, each reached only with info still 0' % nst)
+            for (st, first) in over[:2]:
+                chk.violate('R2.p', '%s:overwrite:%s' % (f.name, pretty(st)[:40].replace(' ', '')), loc(f, st), f.name,
+                            '`%s` (line %d) is reachable after `%s` (line %d) has already recorded an illegal argument: the later test '
+                            'overwrites the code of the first illegal argument' % (pretty(st), st.line, pretty(first), first.line), cfgname=cfgname)
             # (e) inert error exit
             inert(chk, prog, eff, f, t, cfgname)
         if len(seen) < 36:
@@ -300,6 +325,16 @@ def run(tier):
         if cfgname == 'tested':
             r9_sibling.run(chk, prog, 'R9', dunits, cfgname)
     return chk.finish()
+
+
+INFO_CLEAR = {'(*$info == 0)', '(*info == 0)', '(info == 0)'}
+
+
+INFO_TEST = re.compile(r'^\(\*?(\$\d+|info) == 0\)$')
+
+
+def terms(atom):
+    return set(re.findall(r'\$\d+(?:->\w+)*', atom))
 
 
 def ctx_implied(reqset):
